@@ -2373,6 +2373,11 @@ int cgi_read_cprop(int in_link, double parent_id, cgns_cprop **cprop)
     }
     cprop[0] = CGNS_NEW(cgns_cprop, 1);
     cprop[0]->id = id[0];
+    if (cgio_get_name(cg->cgio, cprop[0]->id, cprop[0]->name)) {
+        cg_io_error("cgio_get_name");
+        CGNS_FREE(id);
+        return CG_ERROR;
+    }
     cprop[0]->link = cgi_read_link(id[0]);
     cprop[0]->in_link = in_link;
     linked = cprop[0]->link ? 1 : in_link;
@@ -2410,6 +2415,11 @@ int cgi_read_cprop(int in_link, double parent_id, cgns_cprop **cprop)
     } else {
         cprop[0]->caverage = CGNS_NEW(cgns_caverage, 1);
         cprop[0]->caverage->id = id[0];
+        if (cgio_get_name(cg->cgio, cprop[0]->caverage->id, cprop[0]->caverage->name)) {
+            cg_io_error("cgio_get_name");
+            CGNS_FREE(id);
+            return CG_ERROR;
+        }
         cprop[0]->caverage->link = cgi_read_link(id[0]);
         cprop[0]->caverage->in_link = linked;
         in_link = cprop[0]->caverage->link ? 1 : linked;
@@ -2467,6 +2477,11 @@ int cgi_read_cprop(int in_link, double parent_id, cgns_cprop **cprop)
     } else {
         cprop[0]->cperio = CGNS_NEW(cgns_cperio, 1);
         cprop[0]->cperio->id = id[0];
+        if (cgio_get_name(cg->cgio, cprop[0]->cperio->id, cprop[0]->cperio->name)) {
+            cg_io_error("cgio_get_name");
+            CGNS_FREE(id);
+            return CG_ERROR;
+        }
         cprop[0]->cperio->link = cgi_read_link(id[0]);
         cprop[0]->cperio->in_link = linked;
         in_link = cprop[0]->cperio->link ? 1 : linked;
@@ -2913,6 +2928,11 @@ int cgi_read_bprop(int in_link, double parent_id, cgns_bprop **bprop)
     }
     bprop[0] = CGNS_NEW(cgns_bprop, 1);
     bprop[0]->id = id[0];
+    if (cgio_get_name(cg->cgio, bprop[0]->id, bprop[0]->name)) {
+        cg_io_error("cgio_get_name");
+        CGNS_FREE(id);
+        return CG_ERROR;
+    }
     bprop[0]->link = cgi_read_link(id[0]);
     bprop[0]->in_link = in_link;
     linked = bprop[0]->link ? 1 : in_link;
@@ -2949,6 +2969,11 @@ int cgi_read_bprop(int in_link, double parent_id, cgns_bprop **bprop)
     } else {
         bprop[0]->bcwall = CGNS_NEW(cgns_bcwall, 1);
         bprop[0]->bcwall->id = id[0];
+        if (cgio_get_name(cg->cgio, bprop[0]->bcwall->id, bprop[0]->bcwall->name)) {
+            cg_io_error("cgio_get_name");
+            CGNS_FREE(id);
+            return CG_ERROR;
+        }
         bprop[0]->bcwall->link = cgi_read_link(id[0]);
         bprop[0]->bcwall->in_link = linked;
         in_link = bprop[0]->bcwall->link ? 1 : linked;
@@ -3005,6 +3030,11 @@ int cgi_read_bprop(int in_link, double parent_id, cgns_bprop **bprop)
     } else {
         bprop[0]->bcarea = CGNS_NEW(cgns_bcarea, 1);
         bprop[0]->bcarea->id = id[0];
+        if (cgio_get_name(cg->cgio, bprop[0]->bcarea->id, bprop[0]->bcarea->name)) {
+            cg_io_error("cgio_get_name");
+            CGNS_FREE(id);
+            return CG_ERROR;
+        }
         bprop[0]->bcarea->link = cgi_read_link(id[0]);
         bprop[0]->bcarea->in_link = linked;
         in_link = bprop[0]->bcarea->link ? 1 : linked;
